@@ -160,7 +160,8 @@ prop("C03",
           "points, random, several stimuli) x handler replies; non-trivial = at least one UPDATE reached the handler")
 
 prop("C08",
-     scripts=lambda tier, rnd: S.headers(rnd) + sample(S.trailing(), rnd, 30) if tier == "quick" else S.trailing() +
+     scripts=lambda tier, rnd: S.headers(rnd) + sample(S.notif_out(rnd), rnd, 60) + sample(S.trailing(), rnd, 30) + sample(S.segmentation(rnd), rnd, 30)
+     if tier == "quick" else S.trailing() + S.notif_out(rnd) + S.segmentation(rnd) +
      S.headers(rnd) + S.headers(rnd, lengths=sorted(set(rnd.randrange(65536) for _ in range(150))),
                                 types=list(range(0, 256, 5))),
      mc=lambda tier: [mc_pair(["openLo", "ka", "fault"], conns=1, msgs=3)],
